@@ -6,7 +6,7 @@ use serde_json::{Value, json};
 
 pub static PROP: Prop = Prop {
     id: "C16",
-    rule: "(a) the full product of 25 hint positions (plus a `koto.type` anchor) (three multi-lets whose right-hand side is one iterated value, six positions binding `_` / `_name` with a hint, let, second target of a multi-let, for argument, unpacked for argument, function argument, unpacked function argument, variadic-free default argument, implicit and explicit return value, yield, match arm, nested match pattern, typed catch) x 44 hints (11 built-in type names, Object, three user @type names of a @base chain, an unknown name, a wrong-case name, Any / Callable / Indexable / Iterable, each with and without `?`) x 26 runtime values (every value kind, native and generator functions, iterators, objects with @type, without @type, with @base chains of depth 1-3, with @call / @index / @iterator / @next), each site run in its own try wrapper under enable_type_checks on and off: a checking site raises exactly when the oracle (own type name, then the @type of each @base in turn; `?` admits null; the four special hints by the guide's definitions) says mismatch, match and catch sites select / fall through instead, and with checks disabled every checking site passes while match / catch sites are unchanged; `koto.type` of every value is anchored to the declared name. (b) proptest-sampled composite programs threading one value through five hinted positions (argument -> let -> for -> match -> return) in nested frames: the first mismatching position in evaluation order decides. (c) every runnable corpus program (guide, core-library docs, test scripts) that succeeds with checks enabled prints the same with checks disabled. Non-trivial: a site where the plain type-name comparison alone gives the wrong answer (null with `?`, special hints, @base chains, objects) or any mismatch.",
+    rule: "(a) the full product of 27 hint positions (plus a `koto.type` anchor) (three multi-lets whose right-hand side is one iterated value, six positions binding `_` / `_name` with a hint, let, second target of a multi-let, for argument, unpacked for argument, function argument, unpacked function argument, variadic-free default argument, implicit and explicit return value, yield, match arm, nested match pattern, typed catch, a hinted entry of a map pattern in a match arm and in a catch) x 44 hints (11 built-in type names, Object, three user @type names of a @base chain, an unknown name, a wrong-case name, Any / Callable / Indexable / Iterable, each with and without `?`) x 27 runtime values (every value kind, native and generator functions, iterators, objects with @type, without @type, with @base chains of depth 1-3, with @call / @index / @iterator / @next), each site run in its own try wrapper under enable_type_checks on and off: a checking site raises exactly when the oracle (own type name, then the @type of each @base in turn; `?` admits null; the four special hints by the guide's definitions) says mismatch, match and catch sites select / fall through instead, and with checks disabled every checking site passes while match / catch sites are unchanged; `koto.type` of every value is anchored to the declared name. (b) proptest-sampled composite programs threading one value through five hinted positions (argument -> let -> for -> match -> return) in nested frames: the first mismatching position in evaluation order decides. (c) every runnable corpus program (guide, core-library docs, test scripts) that succeeds with checks enabled prints the same with checks disabled. Non-trivial: a site where the plain type-name comparison alone gives the wrong answer (null with `?`, special hints, @base chains, objects) or any mismatch.",
     assumptions: &[
         "not judged (guide silent or implementation deliberately narrower): Callable for generator functions, Iterable for objects without @iterator/@next (they still iterate their entries) ",
         "the text of type-check errors is not judged, only that an error is raised at the site",
@@ -45,6 +45,8 @@ pub fn values() -> Vec<Val> {
         v("empty-tuple", "()", &["Tuple"], F, T, T, false),
         v("map", "{a: 1}", &["Map"], F, T, T, false),
         v("range", "1..3", &["Range"], F, T, T, false),
+        // a range without an end can be indexed (`(5..)[2]` is 7); whether it is Iterable is not judged
+        v("range-from", "(5..)", &["Range"], F, T, None, false),
         v("function", "|x| x", &["Function"], T, F, F, false),
         v("native-function", "string.to_number", &["Function"], T, F, F, false),
         v("generator-function", "|| yield 1", &["Generator"], None, F, F, false),
@@ -87,10 +89,10 @@ fn plain_comparison_suffices(v: &Val, hint: &str, optional: bool) -> bool {
     matches(v, hint, optional) == Some(own) && own
 }
 
-pub const POSITIONS: [&str; 26] = ["let-iter-ignored-first", "let-iter-ignored", "let-iter", "for-unpack-ignored-first", "arg-unpack-ignored-first", "let-multi-ignored-first", "let-multi-ignored", "for-ignored", "for-unpack-ignored", "arg-ignored", "arg-unpack-ignored", "match-ignored", "type-name", "let", "let-multi", "for", "for-unpack", "arg", "arg-unpack", "arg-default", "ret", "ret-explicit", "yield", "match", "match-nested", "catch"];
+pub const POSITIONS: [&str; 28] = ["match-map-entry", "catch-map-entry", "let-iter-ignored-first", "let-iter-ignored", "let-iter", "for-unpack-ignored-first", "arg-unpack-ignored-first", "let-multi-ignored-first", "let-multi-ignored", "for-ignored", "for-unpack-ignored", "arg-ignored", "arg-unpack-ignored", "match-ignored", "type-name", "let", "let-multi", "for", "for-unpack", "arg", "arg-unpack", "arg-default", "ret", "ret-explicit", "yield", "match", "match-nested", "catch"];
 
 fn is_checking(pos: &str) -> bool {
-    !matches!(pos, "type-name" | "match" | "match-nested" | "match-ignored" | "catch")
+    !matches!(pos, "type-name" | "match" | "match-nested" | "match-ignored" | "catch" | "match-map-entry" | "catch-map-entry")
 }
 
 /// Source of one site; it prints `<k>:<ok|E|hit|miss>`
@@ -107,6 +109,9 @@ fn site_source(k: usize, pos: &str, vexpr: &str, hint: &str) -> String {
         "let-iter-ignored-first" => format!("  src = [mk(), 7, 8]\n  let _: {hint}, b, c = src\n  if b == 7 and c == 8 then 'ok' else 'shifted'\n"),
         "let-iter-ignored" => format!("  let a: Any, _y: {hint}, c = (7, mk(), 8)\n  if a == 7 and c == 8 then 'ok' else 'shifted'\n"),
         "let-iter" => format!("  let a: Any, x: {hint}, c = [7, mk(), 8]\n  if a == 7 and c == 8 then 'ok' else 'shifted'\n"),
+        // a hint on an entry of a map pattern selects, it does not assert
+        "match-map-entry" => format!("  match {{x: mk(), y: 1}}\n    {{x: {hint}}} then 'hit'\n    else 'miss'\n"),
+        "catch-map-entry" => format!("  try\n    throw {{code: mk(), @display: || 'e'}}\n  catch {{code: {hint}}}\n    'hit'\n  catch _\n    'miss'\n"),
         "for-ignored" => format!("  q = 'none'\n  for _: {hint} in (mk(),)\n    q = 'ok'\n  q\n"),
         "for-unpack-ignored" => format!("  q = 'none'\n  for a, _y: {hint} in ((0, mk()),)\n    q = 'ok'\n  q\n"),
         "arg-ignored" => format!("  f = |_: {hint}| 'ok'\n  f mk()\n"),
